@@ -503,4 +503,21 @@ theorem holder_witness :
     deliveriesOk (run false (init 2 1) raceSchedule) = true := by
   decide
 
+/-- **the step order of the per-client wrappers is the one the interleaving model is built on**:
+    the rendered release wrapper forwards the release to the component first and deselects
+    afterwards; the rendered claim wrapper forwards the claim and selects only on the granting reply.
+    (The correspondence check compares these texts byte for byte with the generator's output.) -/
+theorem wrapper_order (lhs : Shell.Slot) (mv ev cev : Str) (ps : List Shell.LParam) (args : List Str) (grant : Str) :
+    (∃ pre, Shell.Assign.render { lhs, rhs := .mcRelease mv ev cev ps args } =
+        pre ++ (L "    " ++ mv ++ L ".Arbitered().in." ++ cev ++ L "(" ++ Py.join (L ", ") args ++ L ");\n" ++
+          L "    " ++ mv ++ L ".Deselect(identifier);\n" ++ L "};")) ∧
+    (∃ pre, Shell.Assign.render { lhs, rhs := .mcClaim mv ev ps args grant } =
+        pre ++ (L "    const auto r = " ++ mv ++ L ".Arbitered().in." ++ ev ++ L "(" ++ Py.join (L ", ") args ++ L ");\n" ++
+          L "    if (r == " ++ grant ++ L ") " ++ mv ++ L ".Select(identifier);\n" ++ L "    return r;\n" ++ L "};")) := by
+  constructor
+  · refine ⟨lhs.str ++ L " = [&, identifier]" ++ Shell.lambdaParams ps ++ L " {\n", ?_⟩
+    simp only [Shell.Assign.render, List.append_assoc]
+  · refine ⟨lhs.str ++ L " = [&, identifier]" ++ Shell.lambdaParams ps ++ L " {\n", ?_⟩
+    simp only [Shell.Assign.render, List.append_assoc]
+
 end C11
